@@ -2,6 +2,9 @@ import JSight.Props.C06
 import JSight.TreeStrip
 import JSight.LoaderProofs
 import JSight.RuleNameSpelling
+import JSight.LayoutExamples
+import JSight.CommentExamples
+import JSight.AnnotExamples
 /-!
 # C13 — Meaning is invariant under surface syntax: the part that is a theorem
 
@@ -15,8 +18,17 @@ a new-line event directly after another one changes nothing, so LF / CR / CRLF l
 load identically (`C13_newline_idempotent`, `C13_newline_run_absorbed`).
 Quoted versus bare rule names: the name the loader dispatches on (`Loader.nameOf` = `TrimSpaces().Unquote()` of
 the name token) is the same for `name` and `"name"` with any blanks around (`C13_rule_name_spelling`).
-String escapes, comments, annotation spelling go through unquoting, the schema scanner and the loader:
-validated against the code (harness `c13-metamorphic`, `schema-diff`, `unquote-diff`, `loader-diff`).
+Schema side, on the scanner model + loader model (`Loader.loadText`), for schemas that are plain JSON with layout
+(`Lay.BTree`, any nesting / width): line-end style (`C13_line_end_style`), indentation and blanks (`C13_indentation`),
+user comments `#` / `###` wherever the scanner accepts them (`C13_events_with_comments`: the exact event stream;
+`C13_user_comments_invisible`, `C13_comments_any_spelling`: same events up to new-line events and spans, same node
+table) — the loaded table, read against the text, is a function of the VALUE only (`C13_text_with_comments_loads_value`).
+For a top-level scalar with a rule object of bare names and literal values: inline `// {…}` versus multi-line
+`/* {…} */` annotation (`C13_inline_vs_multiline`, `C13_inline_vs_multiline_events`) and the trailing comma
+(`C13_trailing_comma`). All of these are tied to the real scanner / `GetAST` by the harness command `c13-layout`.
+String escapes, notes, quoted names inside rule objects, non-literal rule values, annotations on nested values go
+through unquoting, the schema scanner and the loader: validated against the code (harness `c13-metamorphic`,
+`schema-diff`, `unquote-diff`, `loader-diff`).
 -/
 namespace Props.C13
 open JsonScan
@@ -47,5 +59,230 @@ theorem C13_rule_name_spelling (n w1 w2 : List UInt8) (hn : Loader.plainName n)
 theorem C13_newline_run_absorbed (src : Array UInt8) (st st' : Loader.St) (e1 : SchemaScan.Ev) (es : List SchemaScan.Ev)
     (h1 : e1.ty = .newLine) (hes : ∀ e ∈ es, e.ty = .newLine) (h : Loader.step src st e1 = .ok st') :
     es.foldlM (Loader.step src) st' = .ok st' := Loader.C13_newline_run_absorbed src st st' e1 es h1 hes h
+
+/-! ## Schema side: line ends and indentation (theorems on the scanner model + loader model)
+
+`Lay.BTree` is a JSON value with its layout, byte by byte (`render` = the schema text); `value` removes the layout.
+`Loader.loadText` is the scanner model and the loader model interleaved as `doLoad` runs them (tied to the real
+`GetAST` by `loader-diff` / `c13-layout`); `Lay.absTable` reads its node table against the text: every span replaced
+by the bytes it denotes — kinds, parents, children in order, decoded keys, literal tokens, rule names, note.
+The scanner maps LF and CR to one new-line event each, so CR LF is two events: -/
+
+example : SchemaScan.scanAll [49, 13, 10] = .ok [⟨.litB, 0, 0⟩, ⟨.litE, 0, 0⟩, ⟨.newLine, 1, 1⟩, ⟨.newLine, 2, 2⟩] :=
+  SchemaScan.C06_schema_events_of_tree (.scalar [.d19]) ⟨.d19, [], .d1, false, .d1, rfl, rfl, rfl, rfl⟩ [] [.nl, .nl]
+    (by simp [SchemaScan.IsWs]) (by simp [SchemaScan.IsWs, SchemaScan.Cls.isBlank, SchemaScan.Cls.isNewLine])
+    [49, 13, 10] (by decide)
+
+open Lay in
+/-- the text of a plain-JSON tree (distinct keys per object), whatever its blanks and line ends, loads into the
+table of its VALUE: nothing of the layout is left in the result -/
+theorem C13_plain_text_loads_value (t : BTree) (hv : t.Valid) (hp : t.Plain) (hk : t.value.KeysNodup)
+    (w0 w1 : List LI) (b0 : BlankL w0) (b1 : BlankL w1) :
+    ∃ st, Loader.loadText (docText w0 t w1) = .ok st ∧ st.root = some 0 ∧
+      absTable (docText w0 t w1).toArray st = tableOf none 0 t.value :=
+  Lay.load_plain t hv hp hk w0 w1 b0.1 b0.2 b1.1 b1.2
+
+open Lay in
+/-- **line ends**: `t'` is `t` with every line break of the layout (LF, CR or CR LF) re-spelled as LF, CR or CR LF,
+independently per position (`LEVar`), nothing else changed: both texts load, into the same node table -/
+theorem C13_line_end_style (t t' : BTree) (hv : t.Valid) (hp : t.Plain) (hr : t.Rel LEVar t')
+    (hk : t.value.KeysNodup) (w0 w1 w0' w1' : List LI) (b0 : BlankL w0) (b1 : BlankL w1)
+    (r0 : LEVar w0 w0') (r1 : LEVar w1 w1') :
+    ∃ st st', Loader.loadText (docText w0 t w1) = .ok st ∧ Loader.loadText (docText w0' t' w1') = .ok st' ∧
+      st.root = st'.root ∧
+      absTable (docText w0 t w1).toArray st = absTable (docText w0' t' w1').toArray st' :=
+  Lay.line_end_style t t' hv hp hr hk w0 w1 w0' w1' b0 b1 r0 r1
+
+/-- non-vacuity: `{⏎  "a": [1, true]⏎}⏎` in LF and in CR LF spelling -/
+example := C13_line_end_style Lay.Ex.tLF Lay.Ex.tLF' Lay.Ex.tLF_valid Lay.Ex.tLF_plain Lay.Ex.tLF_rel Lay.Ex.keys_ok
+  [] [.blank 10] [] [.blank 13, .blank 10] ⟨by simp [Lay.ValidL], by simp [Lay.PlainL]⟩
+  ⟨by simp [Lay.ValidL, Lay.LI.Valid, Lay.isBlankB], by simp [Lay.PlainL, Lay.LI.isBlank]⟩ .nil Lay.Ex.lf_crlf
+
+open Lay in
+/-- **indentation / blanks**: two layouts (any spaces, tabs, line breaks wherever JSON allows white space) of one
+value: both texts load, into the same node table -/
+theorem C13_indentation (t t' : BTree) (hv : t.Valid) (hv' : t'.Valid) (hp : t.Plain) (hp' : t'.Plain)
+    (hs : t.value = t'.value) (hk : t.value.KeysNodup) (w0 w1 w0' w1' : List LI)
+    (b0 : BlankL w0) (b1 : BlankL w1) (b0' : BlankL w0') (b1' : BlankL w1') :
+    ∃ st st', Loader.loadText (docText w0 t w1) = .ok st ∧ Loader.loadText (docText w0' t' w1') = .ok st' ∧
+      st.root = st'.root ∧
+      absTable (docText w0 t w1).toArray st = absTable (docText w0' t' w1').toArray st' :=
+  Lay.indentation t t' hv hv' hp hp' hs hk w0 w1 w0' w1' b0.1 b0.2 b1.1 b1.2 b0'.1 b0'.2 b1'.1 b1'.2
+
+/-- non-vacuity: two-space indentation with LF against tabs, CR LF and blanks around `:` and `,` -/
+example := C13_indentation Lay.Ex.tLF Lay.Ex.tCRLF Lay.Ex.tLF_valid Lay.Ex.tCRLF_valid Lay.Ex.tLF_plain
+  Lay.Ex.tCRLF_plain Lay.Ex.same_value Lay.Ex.keys_ok [] [.blank 10] [] []
+  ⟨by simp [Lay.ValidL], by simp [Lay.PlainL]⟩
+  ⟨by simp [Lay.ValidL, Lay.LI.Valid, Lay.isBlankB], by simp [Lay.PlainL, Lay.LI.isBlank]⟩
+  ⟨by simp [Lay.ValidL], by simp [Lay.PlainL]⟩ ⟨by simp [Lay.ValidL], by simp [Lay.PlainL]⟩
+
+/-! ## Schema side: user comments
+
+A layout (`List Lay.LI`) may hold, besides blanks, `#` line comments (`LI.line text nl`: `#`, a text without line
+break that does not start with `#`, the line break) and block comments (`LI.block body`: `##`, a body, `###`, where
+the byte behind `##` is `#` and the first `###` behind `##` is the closing one; `### text ###` is `body = # text`) —
+wherever the scanner looks for a value, a key, a separator or the end of the text (`SchemaScan.cmtLoop`), i.e. not
+between a key and its colon nor between the colon and the value (`BTree.Valid` wants those two layouts blank).
+`docTextF w0 t w1 fin` is the whole text, `fin` an optional last line comment that no line break ends. -/
+
+open Lay in
+/-- the scanner model's event stream for a text with user comments, exactly (`docEvs`: the events of the tree with
+`LI.evs` for each layout item — nothing for a block comment whatever line breaks it holds, two `newLine` events for a
+line comment: its own, at its last byte, and the one of the line break, which is read again; F-18's empty comment
+`#⏎` is the case `text = []`) -/
+theorem C13_events_with_comments (t : BTree) (hv : t.Valid) (w0 w1 : List LI) (h0 : ValidL w0) (h1 : ValidL w1)
+    (fin : List UInt8) (hf : IsFin fin) :
+    SchemaScan.scanAll (docTextF w0 t w1 fin) = .ok (docEvs w0 t w1) :=
+  Lay.C13_events_with_comments t hv w0 w1 h0 h1 fin hf
+
+open Lay in
+/-- a text with user comments (distinct keys per object) loads into the table of its VALUE -/
+theorem C13_text_with_comments_loads_value (t : BTree) (hv : t.Valid) (hk : t.value.KeysNodup) (w0 w1 : List LI)
+    (h0 : ValidL w0) (h1 : ValidL w1) (fin : List UInt8) (hf : IsFin fin) :
+    ∃ st, Loader.loadText (docTextF w0 t w1 fin) = .ok st ∧ st.root = some 0 ∧
+      absTable (docTextF w0 t w1 fin).toArray st = tableOf none 0 t.value :=
+  Lay.load_comments t hv hk w0 w1 h0 h1 fin hf
+
+open Lay in
+/-- **user comments are invisible**: against the text in which every comment is replaced by what remains of it
+(`erase`: the terminating line break of a `#` comment, nothing for a block comment, nothing for an unterminated last
+comment), the scanner model delivers the same events once `newLine` events are dropped and spans forgotten
+(`strip`), and scanner + loader build the same node table -/
+theorem C13_user_comments_invisible (t : BTree) (hv : t.Valid) (hk : t.value.KeysNodup) (w0 w1 : List LI)
+    (h0 : ValidL w0) (h1 : ValidL w1) (fin : List UInt8) (hf : IsFin fin) :
+    ∃ evs evs' st st',
+      SchemaScan.scanAll (docTextF w0 t w1 fin) = .ok evs ∧
+      SchemaScan.scanAll (docText (eraseL w0) t.erase (eraseL w1)) = .ok evs' ∧ strip evs = strip evs' ∧
+      Loader.loadText (docTextF w0 t w1 fin) = .ok st ∧
+      Loader.loadText (docText (eraseL w0) t.erase (eraseL w1)) = .ok st' ∧ st.root = st'.root ∧
+      absTable (docTextF w0 t w1 fin).toArray st = absTable (docText (eraseL w0) t.erase (eraseL w1)).toArray st' :=
+  let ⟨evs, evs', a, b, c⟩ := Lay.comments_events t hv w0 w1 h0 h1 fin hf
+  let ⟨st, st', d, e, f, g⟩ := Lay.comments_erased t hv hk w0 w1 h0 h1 fin hf
+  ⟨evs, evs', st, st', a, b, c, d, e, f, g⟩
+
+/-- non-vacuity: `{ # first⏎#####"a": [1,#␍⏎true ### x⏎ y ###⏎]#c⏎}⏎# end` — an empty comment, a comment directly
+before a closing brace, a block comment with a line break inside, `#####`, a last comment without line break -/
+example := C13_user_comments_invisible Lay.Ex.tC Lay.Ex.tC_valid (Lay.Ex.tC_value ▸ Lay.Ex.keys_ok) [] [.blank 10]
+  (by simp [Lay.ValidL]) (by simp [Lay.ValidL, Lay.LI.Valid, Lay.isBlankB]) Lay.Ex.cFin Lay.Ex.cFin_ok
+
+open Lay in
+/-- the symmetric form: two spellings of one value, any valid layouts with or without comments: the same table -/
+theorem C13_comments_any_spelling (t t' : BTree) (hv : t.Valid) (hv' : t'.Valid) (hs : t.value = t'.value)
+    (hk : t.value.KeysNodup) (w0 w1 w0' w1' : List LI) (h0 : ValidL w0) (h1 : ValidL w1)
+    (h0' : ValidL w0') (h1' : ValidL w1') (fin fin' : List UInt8) (hf : IsFin fin) (hf' : IsFin fin') :
+    ∃ st st', Loader.loadText (docTextF w0 t w1 fin) = .ok st ∧ Loader.loadText (docTextF w0' t' w1' fin') = .ok st' ∧
+      st.root = st'.root ∧
+      absTable (docTextF w0 t w1 fin).toArray st = absTable (docTextF w0' t' w1' fin').toArray st' :=
+  Lay.comments_invisible t t' hv hv' hs hk w0 w1 w0' w1' h0 h1 h0' h1' fin fin' hf hf'
+
+/-- non-vacuity: the commented text against the CR LF / tab spelling without comments -/
+example := C13_comments_any_spelling Lay.Ex.tC Lay.Ex.tCRLF Lay.Ex.tC_valid Lay.Ex.tCRLF_valid
+  (Lay.Ex.tC_value.trans Lay.Ex.same_value) (Lay.Ex.tC_value ▸ Lay.Ex.keys_ok) [] [.blank 10] [] []
+  (by simp [Lay.ValidL]) (by simp [Lay.ValidL, Lay.LI.Valid, Lay.isBlankB]) (by simp [Lay.ValidL]) (by simp [Lay.ValidL])
+  Lay.Ex.cFin [] Lay.Ex.cFin_ok (Or.inl rfl)
+
+/-! ## Schema side: inline versus multi-line annotation, trailing comma
+
+`annTextB a tok s1 s2 ob s3 tl` is the text of a top-level scalar `tok` annotated with a rule object:
+`tok s1 // s2 {ob} s3 tl` for `a = .inline` and `tok s1 /* s2 {ob} s3 tl` for `a = .multi` (`tl` = end of input or a line
+break and white space, resp. `*/` and white space). `AnnValid` is the grammar: `tok` a scalar token, `s1` spaces / tabs,
+the other blanks spaces / tabs and — in the multi-line form only — line breaks, the object (`BObj`) a list of rules
+`blanks name spaces : blanks value blanks` with bare names (letters, digits, `-`, `_`) and literal values, separated
+by commas, optionally a trailing comma with blanks behind it, or empty. (Quoted names — for those see `C13_rule_name_spelling` — non-literal rule values and annotations on values inside
+containers are not covered; they are validated by `loader-diff` / `c13-metamorphic`.) With a note: `annTextNB`, `AnnValidN`
+(`… } blanks - spaces note tail`, the note a text without line break, `#` and `*` that starts with a non-blank byte). The scanner model's events for either form are `SchemaScan.annEvs` (`SchemaScan.annot_emits`). -/
+
+open Lay SchemaScan in
+/-- an annotated top-level scalar, in either form, with or without a trailing comma, loads into ONE literal node:
+the scalar's token as value, one rule per rule of the object, named by the rule names in written order -/
+theorem C13_annotated_scalar_loads (a : Ann) (ha : a.isAnn = true) (tok s1 s2 : List UInt8) (ob : BObj)
+    (s3 tl : List UInt8) (hv : AnnValid a tok s1 s2 ob s3 tl) :
+    ∃ st, Loader.loadText (annTextB a tok s1 s2 ob s3 tl) = .ok st ∧ st.root = some 0 ∧
+      absTable (annTextB a tok s1 s2 ob s3 tl).toArray st = [annNode tok ob.names] :=
+  Lay.load_annot a ha tok s1 s2 ob s3 tl hv
+
+open Lay SchemaScan in
+/-- **inline versus multi-line**: `tok // {rules}` and `tok /* {rules} */` with the same rules (names and values in
+the same order), whatever blanks, line breaks and trailing comma each spelling uses: both load, into the same table -/
+theorem C13_inline_vs_multiline (tok s1 s2 : List UInt8) (ob : BObj) (s3 tl : List UInt8)
+    (s1' s2' : List UInt8) (ob' : BObj) (s3' tl' : List UInt8)
+    (hv : AnnValid .inline tok s1 s2 ob s3 tl) (hv' : AnnValid .multi tok s1' s2' ob' s3' tl')
+    (hsame : ob.pairs = ob'.pairs) :
+    ∃ st st', Loader.loadText (annTextB .inline tok s1 s2 ob s3 tl) = .ok st ∧
+      Loader.loadText (annTextB .multi tok s1' s2' ob' s3' tl') = .ok st' ∧ st.root = st'.root ∧
+      absTable (annTextB .inline tok s1 s2 ob s3 tl).toArray st
+        = absTable (annTextB .multi tok s1' s2' ob' s3' tl').toArray st' :=
+  Lay.inline_vs_multiline tok s1 s2 ob s3 tl s1' s2' ob' s3' tl' hv hv' hsame
+
+/-- non-vacuity: `1 // {min: 0, max :5, }` against `1 /*⏎ {min: 0,⏎ max: 5⏎}⏎*/⏎` -/
+example := C13_inline_vs_multiline Lay.Ex.one [32] [32] Lay.Ex.obInl [] [] [32] [10, 32] Lay.Ex.obMl [10] [42, 47, 10]
+  Lay.Ex.annInl_valid Lay.Ex.annMl_valid Lay.Ex.same_pairs
+
+open Lay SchemaScan in
+/-- the scanner model's event stream of an annotated scalar in either form, exactly -/
+theorem C13_annotation_events (a : Ann) (ha : a.isAnn = true) (tok s1 s2 : List UInt8) (ob : BObj)
+    (s3 tl : List UInt8) (hv : AnnValid a tok s1 s2 ob s3 tl) :
+    scanAll (annTextB a tok s1 s2 ob s3 tl)
+      = .ok (annEvs a (tok.map classify) (s1.map classify) (s2.map classify) ob.cls (s3.map classify)
+          (tl.map classify)) :=
+  Lay.annot_events a ha tok s1 s2 ob s3 tl hv
+
+open Lay SchemaScan in
+/-- **same rule events**: the inline and the multi-line form deliver the same event types (`newLine` events aside)
+once multi-line-annotation-begin / -end are read as inline-annotation-begin / -end (`inlKind`) -/
+theorem C13_inline_vs_multiline_events (tok s1 s2 : List UInt8) (ob : BObj) (s3 tl : List UInt8)
+    (s1' s2' : List UInt8) (ob' : BObj) (s3' tl' : List UInt8)
+    (hv : AnnValid .inline tok s1 s2 ob s3 tl) (hv' : AnnValid .multi tok s1' s2' ob' s3' tl')
+    (hsame : ob.pairs = ob'.pairs) :
+    ∃ evs evs', scanAll (annTextB .inline tok s1 s2 ob s3 tl) = .ok evs ∧
+      scanAll (annTextB .multi tok s1' s2' ob' s3' tl') = .ok evs' ∧
+      (strip evs).map inlKind = (strip evs').map inlKind :=
+  Lay.inline_vs_multiline_events tok s1 s2 ob s3 tl s1' s2' ob' s3' tl' hv hv' hsame
+
+example := C13_inline_vs_multiline_events Lay.Ex.one [32] [32] Lay.Ex.obInl [] [] [32] [10, 32] Lay.Ex.obMl [10]
+  [42, 47, 10] Lay.Ex.annInl_valid Lay.Ex.annMl_valid Lay.Ex.same_pairs
+
+open Lay SchemaScan in
+/-- **trailing comma**: a comma (and blanks) between the last rule and `}` changes nothing -/
+theorem C13_trailing_comma (a : Ann) (ha : a.isAnn = true) (tok s1 s2 : List UInt8) (r : BRule) (rs : List BRule)
+    (b5 : List UInt8) (s3 tl : List UInt8)
+    (hv : AnnValid a tok s1 s2 (.rules r rs none) s3 tl) (hv' : AnnValid a tok s1 s2 (.rules r rs (some b5)) s3 tl) :
+    ∃ st st', Loader.loadText (annTextB a tok s1 s2 (.rules r rs none) s3 tl) = .ok st ∧
+      Loader.loadText (annTextB a tok s1 s2 (.rules r rs (some b5)) s3 tl) = .ok st' ∧ st.root = st'.root ∧
+      absTable (annTextB a tok s1 s2 (.rules r rs none) s3 tl).toArray st
+        = absTable (annTextB a tok s1 s2 (.rules r rs (some b5)) s3 tl).toArray st' :=
+  let ⟨st, h1, h2, h3⟩ := Lay.load_annot a ha tok s1 s2 (.rules r rs none) s3 tl hv
+  let ⟨st', h1', h2', h3'⟩ := Lay.load_annot a ha tok s1 s2 (.rules r rs (some b5)) s3 tl hv'
+  ⟨st, st', h1, h1', by rw [h2, h2'], by rw [h3, h3']; rfl⟩
+
+/-- non-vacuity: `1 // {min: 0, max :5}` against `1 // {min: 0, max :5, }` -/
+example := C13_trailing_comma .inline rfl Lay.Ex.one [32] [32] ⟨[], Lay.Ex.nMin, 0, [32], Lay.Ex.v0, []⟩
+  [⟨[32], Lay.Ex.nMax, 1, [], Lay.Ex.v5, []⟩] [32] [] [] Lay.Ex.annInl0_valid Lay.Ex.annInl_valid
+example := C13_annotated_scalar_loads .multi rfl Lay.Ex.one [32] [10, 32] Lay.Ex.obMl [10] [42, 47, 10] Lay.Ex.annMl_valid
+
+open Lay SchemaScan in
+/-- with a note: value, rules in written order, the note text (trimmed, as `GetAST` shows it) -/
+theorem C13_annotated_scalar_note_loads (a : Ann) (ha : a.isAnn = true) (tok s1 s2 : List UInt8) (ob : BObj)
+    (s3 n1 note tl : List UInt8) (hv : AnnValidN a tok s1 s2 ob s3 n1 note tl) :
+    ∃ st, Loader.loadText (annTextNB a tok s1 s2 ob s3 n1 note tl) = .ok st ∧ st.root = some 0 ∧
+      absTable (annTextNB a tok s1 s2 ob s3 n1 note tl).toArray st = [annNodeN tok ob.names note] :=
+  Lay.load_annot_note a ha tok s1 s2 ob s3 n1 note tl hv
+
+open Lay SchemaScan in
+/-- **inline versus multi-line, with a note**: `tok // {rules} - note` and `tok /* {rules} - note */` with the same
+rules and the same note text: both load, into the same table -/
+theorem C13_inline_vs_multiline_note (tok s1 s2 : List UInt8) (ob : BObj) (s3 n1 note tl : List UInt8)
+    (s1' s2' : List UInt8) (ob' : BObj) (s3' n1' tl' : List UInt8)
+    (hv : AnnValidN .inline tok s1 s2 ob s3 n1 note tl) (hv' : AnnValidN .multi tok s1' s2' ob' s3' n1' note tl')
+    (hsame : ob.pairs = ob'.pairs) :
+    ∃ st st', Loader.loadText (annTextNB .inline tok s1 s2 ob s3 n1 note tl) = .ok st ∧
+      Loader.loadText (annTextNB .multi tok s1' s2' ob' s3' n1' note tl') = .ok st' ∧ st.root = st'.root ∧
+      absTable (annTextNB .inline tok s1 s2 ob s3 n1 note tl).toArray st
+        = absTable (annTextNB .multi tok s1' s2' ob' s3' n1' note tl').toArray st' :=
+  Lay.inline_vs_multiline_note tok s1 s2 ob s3 n1 note tl s1' s2' ob' s3' n1' tl' hv hv' hsame
+
+/-- non-vacuity: `1 // {min: 0, max :5, } - first id` against `1 /*⏎ {min: 0,⏎ max: 5⏎}⏎-  first id*/⏎` -/
+example := C13_inline_vs_multiline_note Lay.Ex.one [32] [32] Lay.Ex.obInl [32] [32] Lay.Ex.noteTxt [] [32] [10, 32]
+  Lay.Ex.obMl [10] [32, 32] [42, 47, 10] Lay.Ex.annInlN_valid Lay.Ex.annMlN_valid Lay.Ex.same_pairs
 
 end Props.C13
